@@ -23,8 +23,24 @@ BAD = [mk_game([PR, PR, PR], [[(1, 1)], [(1, 2)], [(1, 2)]], [0, -1, 0], [2]),  
        dict(rewards=[0, 0, 0], players=[PR, PR, PR], transition_list=[None, [(1, 2)], [(1, 2)]], final_states=[2])]      # state without transitions
 
 
+# no final state at all / no state at all: refused through the ValueError that max()/min() of an empty sequence raise inside the
+# validation (not one of the explicitly raised ones)
+BAD += [mk_game([PR, PR], [[(1, 1)], [(1, 1)]], [0, 0], []),
+        mk_game([], [], [], [])]
+# regrouped twins: the same (label, successor) pairs in the same order, the same size, rewards, owners and finals -- only the state a
+# pair belongs to differs, and with it the set of states that can reach the goal (anything keyed on a flattened description confuses them)
+TWINS = [mk_game([P1, P1, P1, PR, PR], [[("a", 1), ("b", 2)], [("c", 3)], [("d", 4)], [(1, 3)], [(1, 4)]], [1, 1, 1, 0, 0], [4]),
+         mk_game([P1, P1, P1, PR, PR], [[("a", 1)], [("b", 2), ("c", 3)], [("d", 4)], [(1, 3)], [(1, 4)]], [1, 1, 1, 0, 0], [4]),
+         mk_game([P1, P1, P1, PR, PR], [[("a", 1)], [("b", 2)], [("c", 3), ("d", 4)], [(1, 3)], [(1, 4)]], [1, 1, 1, 0, 0], [4])]
+
+
 def gen_batches(rng, tier):
     n = dict(quick=40, thorough=800)[tier]
+    yield dict(names=['t0', 't1'], games=[TWINS[0], TWINS[1]])
+    yield dict(names=['t1', 't0'], games=[TWINS[1], TWINS[0]])
+    yield dict(names=['t2', 't1', 't0'], games=[TWINS[2], TWINS[1], TWINS[0]])
+    yield dict(names=['nofinal', 'good1'], games=[BAD[4], GOOD[1]])
+    yield dict(names=['good2', 'empty', 'good1', 'nofinal'], games=[GOOD[2], BAD[5], GOOD[1], BAD[4]])
     yield dict(names=['g0'], games=[GOOD[0]])
     yield dict(names=['a', 'b'], games=[GOOD[3], GOOD[4]])              # same board, different goals
     yield dict(names=['b', 'a'], games=[GOOD[4], GOOD[3]])
@@ -127,6 +143,12 @@ def synthetic_results():
     yield {'long': dict(base, n_states=400, rewards=[k / 7 for k in range(400)], probabilities=[1.0] * 400, rew_min_reach=[0.1] * 400, prob_min_rew=[1] * 400,
                         reachability_strategies=[None] * 400, final_strategies=[None] * 400, msg='Game solved')}
     yield {'zeros': dict(base, rewards=0, probabilities=0, total_time=0, msg='')}
+    # strategy tables that differ as LISTS although every state offers the same SET of actions (a repeated action name, another order):
+    # the equality flag is the comparison of the two lists that are printed above it
+    yield {'dup': dict(base, n_states=3, reachability_strategies=[['a', 'a'], ['b', 'a'], None], final_strategies=[['a'], ['a', 'b'], None], rewards=[1, 2, 0], probabilities=[1, 1, 1],
+                       rew_min_reach=[0.0] * 3, prob_min_rew=[1] * 3, msg='Game solved', n_iterations_reach=2, n_iterations_rew=2, total_time=0.5),
+           'dup_no_prune': dict(base, n_states=1, reachability_strategies=[['x', 'y']], final_strategies=[['x', 'y']], rewards=[1], probabilities=[1],
+                                rew_min_reach=[0.0], prob_min_rew=[1], msg='Game solved')}
 
 
 def gen_reports(rng, tier):
